@@ -128,6 +128,10 @@ thread_local! {
 /// gate that accounts for decode threads and arms their work budget
 pub fn install_accounting_gate() {
     icy_engine::verif::set_sixel_gate(Some(Arc::new(|_pos, _data| {
+        if std::thread::current().name() == Some("main") {
+            // direct call of Sixel::parse_from by a check, not a decode thread
+            return;
+        }
         ACTIVE_DECODES.fetch_add(1, Ordering::SeqCst);
         STARTED_DECODES.fetch_add(1, Ordering::SeqCst);
         DECODE_GUARD.with(|g| *g.borrow_mut() = Some(DecodeGuard));
